@@ -15,41 +15,53 @@ from mc.specs import spec_signature
 Checker = Callable[[Acc, Cfg, Execution, dict], None]
 
 
-def lattice(tier: str, what: str = "c01") -> List[Cfg]:
-    """The configuration lattice (DESIGN 3.4), reduced per check but never sampled."""
+def _quick_w_lattice() -> List[Cfg]:
     classes = dw.start_classes("quick")
     cfgs: List[Cfg] = []
-    if tier == "quick":
-        stats_list = [(), ("a", "ab")]
-        packs = ["base", "norm+sym", "inf2", "rfac", "rfac2", "ver:a,b", "sfac", "norm+atomlast", "oneway+inf1", "rfswap"]
-        for c in classes:
-            for st in stats_list:
-                for pk in packs:
-                    for db in DBS:
-                        cfgs.append(Cfg.of(c.with_(stats=st), pk, db))
-        for c in classes:
-            for kw in ({"expand_verified": True}, {"smallest": True}, {"debug": True}):
-                cfgs.append(Cfg.of(c, "base", "RuleDB", **kw))
-            cfgs.append(Cfg.of(c, "ver:e,a", "RuleDB", expand_verified=True))
-            cfgs.append(Cfg.of(c, "base", "Forest", compressed=True))
-            for db in ("RuleDB", "Forest"):
-                cfgs.append(Cfg.of(c.with_(stats=("a", "ab")), "marked", db, marked=True))
-                # a product whose child carries the parent's statistics under permuted names
-                cfgs.append(Cfg.of(c.with_(stats=("a", "b")), "rfswap", db))
-            for pk in ("base+iter", "inf1+iter"):
-                for db in ("RuleDB", "Forget"):
-                    cfgs.append(Cfg.of(c, pk, db))
-    else:
-        stats_list = [(), ("a",), ("a", "b"), ("a", "ab"), ("ab",)]
+    stats_list = [(), ("a", "ab")]
+    packs = ["base", "norm+sym", "inf2", "rfac", "rfac2", "ver:a,b", "sfac", "norm+atomlast", "oneway+inf1", "rfswap"]
+    for c in classes:
+        for st in stats_list:
+            for pk in packs:
+                for db in DBS:
+                    cfgs.append(Cfg.of(c.with_(stats=st), pk, db))
+    for c in classes:
+        for kw in ({"expand_verified": True}, {"smallest": True}, {"debug": True}):
+            cfgs.append(Cfg.of(c, "base", "RuleDB", **kw))
+        cfgs.append(Cfg.of(c, "ver:e,a", "RuleDB", expand_verified=True))
+        cfgs.append(Cfg.of(c, "base", "Forest", compressed=True))
+        for db in ("RuleDB", "Forest"):
+            cfgs.append(Cfg.of(c.with_(stats=("a", "ab")), "marked", db, marked=True))
+            # a product whose child carries the parent's statistics under permuted names
+            cfgs.append(Cfg.of(c.with_(stats=("a", "b")), "rfswap", db))
+        for pk in ("base+iter", "inf1+iter"):
+            for db in ("RuleDB", "Forget"):
+                cfgs.append(Cfg.of(c, pk, db))
+    return cfgs
+
+
+CORE_PACKS = ("base", "norm+sym", "inf2", "rfac", "sfac", "two", "ver:a,b", "oneway+inf1", "rfswap", "norm+atomlast", "rfac2", "inf1")
+
+
+def lattice(tier: str, what: str = "c01") -> List[Cfg]:
+    """The configuration lattice (DESIGN 3.4), reduced per check but never sampled.
+    thorough = the quick lattice (explored with deviation bound 2, see deviation_bound) plus an
+    extended lattice (more packs, statistics, options, start classes, grammars; bound 1)."""
+    cfgs: List[Cfg] = _quick_w_lattice()
+    if tier != "quick":
+        classes = dw.start_classes("quick")
+        stats_list = [(), ("a",), ("a", "b"), ("a", "ab")]
         packs = [
             "base", "norm", "sym", "norm+sym", "inf1", "inf2", "inf2r", "norm+inf2+sym", "rfac", "sfac",
             "two", "noinit", "dropempty", "ver:a,b", "ver:e", "verfirst:a,ab", "rfac+sym", "inf1+rfac",
             "ver:a,b+sym", "ver:b+inf2", "norm+two", "sfac+inf1", "norm+atomlast", "atomlast+sym", "rfac2", "rfac2+sym", "oneway", "oneway+inf1", "onewayexp+inf1+sym", "oneway+inf2+iter", "rfswap", "norm+rfswap", "rfswap+sym",
+            "rfac3", "oneway2+inf1", "flip", "norm+flip",
         ]
         for c in classes:
             for st in stats_list:
                 for pk in packs:
-                    for db in DBS:
+                    # every rule database for the core packs, the two main families for the others
+                    for db in DBS if pk in CORE_PACKS else ("RuleDB", "Forest"):
                         cfgs.append(Cfg.of(c.with_(stats=st), pk, db))
         for c in classes:
             for ev in (False, True):
@@ -59,24 +71,44 @@ def lattice(tier: str, what: str = "c01") -> List[Cfg]:
                             continue
                         cfgs.append(Cfg.of(c, "base", "RuleDB", expand_verified=ev, smallest=sm, debug=dbg))
                         cfgs.append(Cfg.of(c.with_(stats=("a",)), "ver:a,b", "RuleDB", expand_verified=ev, smallest=sm, debug=dbg))
-            cfgs.append(Cfg.of(c, "base", "Forest", compressed=True))
             cfgs.append(Cfg.of(c.with_(stats=("a", "ab")), "norm+sym", "RuleDB", compressed=True))
             for db in DBS:
                 cfgs.append(Cfg.of(c, "marked", db, marked=True))
                 cfgs.append(Cfg.of(c.with_(stats=("a", "ab")), "marked+norm", db, marked=True))
-                cfgs.append(Cfg.of(c.with_(stats=("a", "b")), "rfswap", db))
                 cfgs.append(Cfg.of(c.with_(stats=("a", "b")), "norm+rfswap+sym", db))
-            for pk in ("base+iter", "inf1+iter", "norm+iter", "sym+iter", "rfac+iter"):
+            for pk in ("norm+iter", "sym+iter", "rfac+iter"):
                 for db in ("RuleDB", "Forget"):
                     cfgs.append(Cfg.of(c, pk, db))
         extra = [c for c in dw.start_classes("thorough") if c not in classes]
         for c in extra:
             for st in [(), ("a", "ab")]:
                 for pk in ("base", "norm+sym", "inf2", "rfac"):
-                    for db in DBS:
+                    for db in ("RuleDB", "Forest"):
                         cfgs.append(Cfg.of(c.with_(stats=st), pk, db))
+        seen = set()
+        uniq = []
+        for c in cfgs:
+            if c not in seen:
+                seen.add(c)
+                uniq.append(c)
+        cfgs = uniq
     cfgs.extend(g_lattice(tier))
     return cfgs
+
+
+_QUICK_SIDS: Optional[set] = None
+BOUND2_MAX_POINTS = 40
+
+
+def deviation_bound(cfg, tier: str) -> int:
+    """quick: 1 everywhere.  thorough: 2 on the configurations of the quick lattice, 1 on the
+    configurations that only the extended lattice has."""
+    global _QUICK_SIDS
+    if tier == "quick":
+        return 1
+    if _QUICK_SIDS is None:
+        _QUICK_SIDS = {c.sid() for c in lattice("quick")}
+    return 2 if cfg.sid() in _QUICK_SIDS else 1
 
 
 def g_lattice(tier: str) -> List[Any]:
@@ -94,31 +126,32 @@ def g_lattice(tier: str) -> List[Any]:
     for g, pk in dg.expand_universes():
         for db in ("Forest", "RuleDB"):
             res.append(GCfg(g, (), pk, db))
-    if tier == "quick":
+    for g in dg.grammars("one"):
+        for db in ("RuleDB", "Forest"):
+            res.append(GCfg(g, (), "g", db))
+        # no verification strategy: no genuine specification exists, whatever is claimed is wrong
+        res.append(GCfg(g, (), "g+nover", "Forest"))
+    if tier != "quick":
         for g in dg.grammars("one"):
-            for db in ("RuleDB", "Forest"):
-                res.append(GCfg(g, (), "g", db))
-            # no verification strategy: no genuine specification exists, whatever is claimed is wrong
-            res.append(GCfg(g, (), "g+nover", "Forest"))
-    else:
-        for g in dg.grammars("one"):
-            for st in ((), ("a",), ("a", "ab")):
-                for db in DBS:
+            for st in (("a",), ("a", "ab")):
+                for db in ("RuleDB", "Forest"):
                     res.append(GCfg(g, st, "g", db))
+            for db in ("Forget", "ForestNR"):
+                res.append(GCfg(g, (), "g", db))
             res.append(GCfg(g, (), "g+split", "RuleDB"))
             res.append(GCfg(g, (), "g", "RuleDB", smallest=True))
             res.append(GCfg(g, (), "g+iter", "RuleDB"))
-            res.append(GCfg(g, (), "g+nover", "Forest"))
             res.append(GCfg(g, (), "g+nover", "RuleDB"))
-        for g in dg.grammars("two"):
-            for db in ("RuleDB", "Forest", "ForestNR"):
-                res.append(GCfg(g, (), "g", db))
-            res.append(GCfg(g, ("a",), "g", "Forest"))
+        for i, g in enumerate(dg.grammars("two")):
+            res.append(GCfg(g, (), "g", "Forest"))
+            res.append(GCfg(g, (), "g", "RuleDB" if i % 2 else "ForestNR"))
+            if i % 4 == 0:
+                res.append(GCfg(g, ("a",), "g", "Forest"))
     return res
 
 
-def budgets_for(tier: str) -> Dict[str, int]:
-    d = 1 if tier == "quick" else 2
+def budgets_for(tier: str, cfg=None) -> Dict[str, int]:
+    d = (1 if tier == "quick" else 2) if cfg is None else deviation_bound(cfg, tier)
     return {"slice": d, "tree_choice": d, "shuffle": d, "rounds": d, "choice": 0, "randint": 0}
 
 
@@ -180,8 +213,18 @@ class ConfigExplorer:
         return ex
 
     def explore_e2(self) -> None:
-        budgets = budgets_for(self.tier)
-        total = 1 if self.tier == "quick" else 2
+        budgets = budgets_for(self.tier, self.cfg)
+        total = deviation_bound(self.cfg, self.tier)
+        if total >= 2:
+            # bound 2 is quadratic in the number of decision points: it is used where the default
+            # execution has at most BOUND2_MAX_POINTS of them, bound 1 elsewhere (counted)
+            probe = execute(self.cfg, [], slice_default=1, horizon=self.horizon, db_hook=self.db_hook, on_searcher=self.on_searcher)
+            if len(probe.dec.trace) > BOUND2_MAX_POINTS:
+                total = 1
+                budgets = {k: min(v, 1) for k, v in budgets.items()}
+                self.acc.count("bound2_configurations_run_with_bound1")
+            else:
+                self.acc.count("bound2_configurations")
         for sd in (0, 1):
             if sd == 1 and self.tier == "quick":
                 # quick: the "check after every packet" slicing only with default answers
